@@ -165,7 +165,7 @@ func (w *world) doc() string {
 	return genDoc(w.t)
 }
 
-func quoteDoc(d string) string { return "\"" + d + "\"" }
+func quoteDoc(d string) string { return lispText(V{K: "str", S: d}) }
 
 func (w *world) intExpr(depth int) string {
 	return fixMark(r.Print(w.g.Expr(proggen.TInt, nil, depth)))
@@ -215,6 +215,8 @@ var lambdaLists = []struct{ params, body, call string }{
 	{"(a &rest more)", "(cons a more)", "(%s 1) (%s 1 2 3)"},
 	{"(&optional (a 1) (b (quote (1 2))))", "(list a b)", "(%s) (%s 4 5)"},
 	{"(a b &key (k \"s\"))", "(list a b k)", "(%s 1 2) (%s 1 2 :k 7)"},
+	{"(a &aux (z 3))", "(list a z)", "(%s 1)"},
+	{"(a &optional (b (list 1 (quote q))) &rest r)", "(list a b r)", "(%s 1) (%s 1 2 3)"},
 }
 
 func (w *world) defun(i int) {
@@ -596,7 +598,10 @@ func (w *world) defPackage() {
 	if len(w.pkgs) > 0 && w.pick("pkguse", 2) == 0 {
 		uses = append(uses, "\""+w.pkgs[w.pick("pkgused", len(w.pkgs))]+"\"")
 	}
-	if w.pick("nouse", 4) > 0 {
+	// a package that gets a function uses cl: the function is written by snapshot after (in-package ...), where its
+	// body must find let, + and list
+	withFun := !w.noPkgContent && w.pick("pkgfun", 2) == 0
+	if withFun || w.pick("nouse", 4) > 0 {
 		src += " (:use " + strings.Join(uses, " ") + ")"
 	}
 	if w.pick("nick", 2) == 0 {
@@ -621,7 +626,7 @@ func (w *world) defPackage() {
 		w.add("pkg-defvar", name, fmt.Sprintf("(defvar %s::pv%d %d)", name, n, w.pick("pvval", 100)))
 		w.probes = append(w.probes, fmt.Sprintf("%s::pv%d", name, n))
 	}
-	if w.pick("pkgfun", 2) == 0 {
+	if withFun {
 		w.add("pkg-defun", name, fmt.Sprintf("(defun %s::pf%d (x) (let ((y (+ x %d))) (list y x)))", name, n, w.pick("pfval", 10)))
 		w.probes = append(w.probes, fmt.Sprintf("(%s::pf%d 2)", name, n))
 	}
